@@ -245,22 +245,22 @@ def scanDigits : Bytes → Nat → Nat × Bytes
   | [], acc => (acc, [])
   | c :: rest, acc => if isDigit c then scanDigits rest (acc * 10 + (c.toNat - 48)) else (acc, c :: rest)
 
-/-- one value of a tuple, as the dump writes them -/
+/-- one value of a tuple, as the dump writes them: `NULL`, `[-]digits`, `'…'`, `0x…` -/
 def parseCell : Bytes → Option (Cell × Bytes)
-  | 78 :: 85 :: 76 :: 76 :: rest => some (.null, rest)
-  | 45 :: c :: rest =>
-    if isDigit c then
-      let (n, rest') := scanDigits (c :: rest) 0
-      some (.int (-(Int.ofNat n)), rest')
-    else none
-  | 48 :: 120 :: rest => (readHex (48 :: 120 :: rest)).map (fun (v, r) => (.bin v, r))
-  | 39 :: rest => (lexString (39 :: rest)).map (fun (s, r) => (.str s, r))
-  | c :: rest =>
-    if isDigit c then
-      let (n, rest') := scanDigits (c :: rest) 0
-      some (.int (Int.ofNat n), rest')
-    else none
   | [] => none
+  | c :: rest =>
+    if c = 78 then
+      match rest with
+      | 85 :: 76 :: 76 :: r => some (.null, r)
+      | _ => none
+    else if c = 45 then
+      match rest with
+      | d :: _ => if isDigit d then some (.int (-(Int.ofNat (scanDigits rest 0).1)), (scanDigits rest 0).2) else none
+      | [] => none
+    else if c = 39 then (lexString (c :: rest)).map (fun p => (.str p.1, p.2))
+    else if c = 48 && rest.head? = some 120 then (readHex (c :: rest)).map (fun p => (.bin p.1, p.2))
+    else if isDigit c then some (.int (Int.ofNat (scanDigits (c :: rest) 0).1), (scanDigits (c :: rest) 0).2)
+    else none
 
 def parseCells : Nat → Bytes → Option (List Cell × Bytes)
   | 0, _ => none
@@ -269,14 +269,20 @@ def parseCells : Nat → Bytes → Option (List Cell × Bytes)
     | none => none
     | some (c, rest) =>
       match rest with
-      | 44 :: rest' => (parseCells fuel rest').map (fun (cs, r) => (c :: cs, r))
-      | 41 :: rest' => some ([c], rest')
-      | _ => none
+      | [] => none
+      | d :: rest' =>
+        if d = 44 then (parseCells fuel rest').map (fun p => (c :: p.1, p.2))
+        else if d = 41 then some ([c], rest')
+        else none
 
 def parseRow (input : Bytes) : Option (List Cell × Bytes) :=
   match input with
-  | 40 :: 41 :: rest => some ([], rest)
-  | 40 :: rest => parseCells (rest.length + 1) rest
-  | _ => none
+  | [] => none
+  | c :: rest =>
+    if c = 40 then
+      (match rest with
+       | [] => none
+       | d :: rest' => if d = 41 then some ([], rest') else parseCells (rest.length + 1) rest)
+    else none
 
 end DoltVerif.SqlEscape
